@@ -77,7 +77,7 @@ def check_request_path(cls, inst, attr):
     def val(x):
         return int.from_bytes(x, "little") if isinstance(x, bytes) else x
     want = [("class", val(cls)), ("instance", val(inst))]
-    if attr:
+    if attr not in (None, b""):       # attribute 0 is an attribute; only the default (empty bytes) means "none"
         want.append(("attribute", val(attr)))
     try:
         segs = parse_sized(out)
